@@ -901,14 +901,15 @@ CANDIDATES = [
     ("deviation: replace behaves as add + C17's remove drift", frozenset(["replace-is-add", "remove-or"]), "exact", "both"),
 ]
 
-SUFFIX = [["deploy"]] + [["eval", n, CM.INVOCABLE] for n in CM.EVAL_NAMES] + [["add", t] for t in CM.TAGS]
+SUFFIX = ([["deploy"]] + [["eval", n, CM.INVOCABLE] for n in CM.EVAL_NAMES] + [["tck", n, CM.INVOCABLE] for n in CM.EVAL_NAMES] +
+          [["add", t] for t in CM.TAGS])
 
 
 def gen_ops(src):
     n = src.int(2, 24)
     ops = []
     for _ in range(n):
-        k = src.weighted([(6, "add"), (5, "replace"), (4, "remove"), (1, "clear"), (4, "deploy"), (5, "eval"), (1, "tck"), (4, "fault"), (1, "info")])
+        k = src.weighted([(6, "add"), (5, "replace"), (4, "remove"), (1, "clear"), (4, "deploy"), (4, "eval"), (3, "tck"), (4, "fault"), (1, "info")])
         if k in ("add", "replace"):
             ops.append([k, src.choice(CM.TAGS)])
         elif k == "remove":
